@@ -341,7 +341,7 @@ func Main(p *Prop) {
 	if o.tier != "quick" && o.tier != "thorough" {
 		o.tier = "quick"
 	}
-	o.evidence = filepath.Join(o.verif, "evidence", p.ID+".json")
+	o.evidence = filepath.Join(envOr("VERIF_EVIDENCE_DIR", filepath.Join(o.verif, "evidence")), p.ID+".json")
 	o.kf = filepath.Join(o.verif, "known_findings.json")
 	o.replayDir = filepath.Join(o.verif, "replay", p.ID)
 	Repo, Verif, Tier, Seed = o.repo, o.verif, o.tier, o.seed
@@ -353,6 +353,11 @@ func Main(p *Prop) {
 		os.Exit(replayMain(p, &o))
 	}
 	os.Exit(orchestrate(p, &o))
+}
+
+// FalcoBin is the falco CLI built from the repository under check (see tools/build_falco.sh).
+func FalcoBin() string {
+	return envOr("VERIF_FALCO_BIN", filepath.Join(Verif, ".build", "falco"))
 }
 
 // Globals readable by workers and generators.
